@@ -233,6 +233,12 @@ def semantic_constructor(ck, prog, cls, fn, why):
                 raise AnalysisError('%s (%s); on two symbolic boxes the constructor tests %r, '
                                     'which is not a comparison of a box coordinate with the split '
                                     'point' % (fn.qualname, why, case.foreign))
+            if case.undecided:
+                # e.g. a filter on the child nodes (a method of the child, its fields): both
+                # outcomes were explored although only one may be possible
+                raise AnalysisError('%s (%s); on two symbolic boxes the constructor tests %r, '
+                                    'which the order type does not decide'
+                                    % (fn.qualname, why, case.undecided[0]))
             n_cases += 1
             for o in outs:
                 n_paths += 1
@@ -625,6 +631,7 @@ def check_structure(ck, prog, fn, cls, name, comps, node):
           key='Index.__init__::recursion-guard')
     # recursion argument ranges over the filter lists only
     ok_arg = False
+    all_quadrants = None
     for b in rec_body:
         for n in ast.walk(b):
             if isinstance(n, ast.ListComp) and len(n.generators) == 1 \
@@ -636,6 +643,7 @@ def check_structure(ck, prog, fn, cls, name, comps, node):
                     and isinstance(n.generators[0].target, ast.Name) \
                     and n.elt.args[0].id == n.generators[0].target.id:
                 ok_arg = True
+                all_quadrants = 'comp@%d' % n.lineno
     ck.ob('C14-D5-termination', 'Index.__init__::recursion-over-all-quadrants', ok_arg,
           'subtrees are not built from every quadrant list (a quadrant dropped loses its boxes; '
           'an argument other than a quadrant list breaks the decreasing measure)',
@@ -652,6 +660,14 @@ def check_structure(ck, prog, fn, cls, name, comps, node):
           key='Index.__init__::leaf-store')
     outs = list(it.exec_block(rec_body, st))
     got = outs[0].state.fields.get(('self', 'subtrees')) if len(outs) == 1 else None
+    if all_quadrants is not None and isinstance(got, Opaque) and got.label.startswith('comp@') \
+            and got.label != all_quadrants:
+        # the list stored is derived from the list of all subtrees (filtered / re-ordered):
+        # whether a subtree that holds boxes can be left out depends on that derivation
+        raise AnalysisError('self.subtrees receives a list derived from the subtrees of all '
+                            'quadrants (%s at %s), not that list itself; whether every quadrant '
+                            'that holds boxes stays reachable is not decided'
+                            % (got.label, fn.loc(target_if)))
     ck.ob('C14-D4-both-stores', 'Index.__init__::subtrees-stored',
           isinstance(got, Opaque) and got.label.startswith('comp@'),
           'an inner node does not store the list of subtrees in self.subtrees (got %r)' % (got,),
